@@ -225,7 +225,7 @@ impl Sub for Structured {
         "structured-mutations"
     }
     fn rule(&self) -> &'static str {
-        "a valid generated file (C14's writers, 1..6 records) or one of the repository's small test files, with 1..3 mutations (prefix, byte substitution / deletion / insertion, line duplication / removal / swap, ragged or longer row, header without matrix, an inserted line (any two-letter field code, or a header / terminator / matrix-like line of one of the formats in an odd place), missing final newline, invalid UTF-8, arbitrary bytes, empty), read by the reader of its own format (or, 1 in 5, another format's) under 2 generated chunkings; Reader::new and every next() must return (a panic fails) and a consumer stopping at the first Err / None must stop within len+2 calls; sweep = EVERY prefix of the repository's 8 small files and of a generated file per format, under chunk size 1 and a cursor; non-trivial = non-empty input on which the reader does not simply succeed as on the unmutated file"
+        "a valid generated file (C14's writers, 1..6 records) or one of the repository's small test files, with 1..3 mutations (prefix, byte substitution / deletion / insertion, line duplication / removal / swap, ragged or longer row, header without matrix, an inserted line (any two-letter field code, or a header / terminator / matrix-like line of one of the formats in an odd place), missing final newline, invalid UTF-8, arbitrary bytes, empty), read by the reader of its own format (or, 1 in 5, another format's) under 2 generated chunkings; Reader::new and every next() must return (a panic fails; so does a call that burns 10 CPU seconds without returning) and a consumer stopping at the first Err / None must stop within len+2 calls; sweep = EVERY prefix of the repository's 8 small files and of a generated file per format, under chunk size 1 and a cursor; non-trivial = non-empty input on which the reader does not simply succeed as on the unmutated file"
     }
     fn cases(&self, tier: Tier) -> u64 {
         tier.pick(100_000, 3_000_000)
@@ -317,8 +317,19 @@ impl Sub for Structured {
         let cap = bytes.len() + 2;
         let base = if bytes != orig && (rfmt, rabc) == (fmt, abc) { Some(read_all(rfmt, rabc, open(&orig, &Chunking::Whole), orig.len() + 2)) } else { None };
         for c in case.chunkings.iter() {
-            // a panic inside read_all is caught by the engine and reported with its site
-            let got = read_all(rfmt, rabc, open(&bytes, c), cap);
+            // the readers run on a helper thread under a CPU-time budget: a call that never returns
+            // is a violation of this property, not a reason to stop the whole run as inconclusive
+            let (b2, c2) = (bytes.clone(), c.clone());
+            let got = match bounded_cpu(move || read_all(rfmt, rabc, open(&b2, &c2), cap)) {
+                Bounded::Done(g) => g,
+                Bounded::Panicked(loc, msg) => return Verdict::Fail(Failure::new(panic_sig(&loc, &msg), format!("panicked at {}: {}", loc, msg))),
+                Bounded::Hung(cpu) => {
+                    return Verdict::Fail(Failure::new(
+                        format!("{}:call-does-not-return", fname),
+                        format!("{} bytes under {:?}: Reader::new / next() spent {:.1} CPU seconds without returning (normal cost: microseconds)", bytes.len(), c, cpu),
+                    ))
+                }
+            };
             info.comparisons += got.calls as u64;
             if got.runaway {
                 return Verdict::Fail(Failure::new(
@@ -344,7 +355,7 @@ pub fn property() -> Property {
         id: "C15",
         subs: vec![Box::new(Structured)],
         assumptions: vec![
-            "a panic anywhere in Reader::new or Iterator::next is a failure; a call that never returns is only detectable as watchdog expiry (exit 2, inconclusive), 'slow' and 'hung' cannot be told apart soundly",
+            "a panic anywhere in Reader::new or Iterator::next is a failure; a call that never returns is recognised by the CPU time its thread consumes (10 CPU seconds on an input of a few KB, whose normal cost is microseconds; 3 s once one such event was seen, so that shrinking stays affordable) - CPU time of that thread, not wall-clock time, so machine load cannot cause it; a call blocked without consuming CPU ends in the global watchdog (exit 2, inconclusive)",
             "termination is that of a consumer which stops at the first Err or None: at most len+2 calls",
             "this is the structured half of C15; the byte-level half is the libFuzzer target fuzz/fuzz_targets/c15_readers.rs",
         ],
